@@ -797,6 +797,10 @@ def lvalue_assign(ex, path, v, locals_, module=None, env=None):
         ex.frames.pop()
 
 
+LOOPS_ENTERED = set()
+LOOPS_SEEN = set()
+
+
 def annotated_loop(ex, node, spec, it=None):
     fr = ex.frames[-1]
     fname = fr.func.qualname
@@ -843,6 +847,7 @@ def annotated_loop(ex, node, spec, it=None):
             raise Unsupported('annotated for over %r' % (it,))
         fr.locals[spec.index] = 0
         fr.locals[spec.index + '_n'] = n
+    LOOPS_SEEN.add(tag)
     # 1. invariant holds on entry
     for i, inv in enumerate(spec.invariant):
         ex.oblige('%s/inv-init#%d' % (tag, i), clause_truth(ex, inv, fr.locals, mod, fr.env, '+', 'invariant'),
@@ -899,6 +904,7 @@ def annotated_loop(ex, node, spec, it=None):
                 pass
         ex.exec_block(node.orelse)
         return
+    LOOPS_ENTERED.add(tag)
     v0 = None
     if spec.decreases is not None:
         v0 = eval_clause(ex, spec.decreases, fr.locals, mod, fr.env)
@@ -910,7 +916,8 @@ def annotated_loop(ex, node, spec, it=None):
     except ContinueEx:
         pass
     except BreakEx:
-        check_frame(ex, snap, exempt_vals, exempt_fields, tag)
+        # a path that leaves the loop carries its real state out; only state flowing back to the loop head
+        # must be covered by the havoc set
         return
     check_frame(ex, snap, exempt_vals, exempt_fields, tag)
     if is_for:
@@ -1342,6 +1349,8 @@ def verify(world_factory, c, registry_by_name=None):
 
     if c.budget_s:
         ex.budget_s = c.budget_s
+    LOOPS_SEEN.clear()
+    LOOPS_ENTERED.clear()
     try:
         ex.explore(cases_body if c.cases else body)
     except Exception as e:   # checker crash: reported, never a verdict
@@ -1349,6 +1358,12 @@ def verify(world_factory, c, registry_by_name=None):
         res.undecided.append('checker error: %s' % traceback.format_exc()[-1500:])
     res.paths = ex.paths
     res.undecided += ex.undecided
+    # vacuity guard: an annotated loop whose body is never entered on any path proves nothing about its
+    # invariant (a contradictory precondition or an over-constrained input shape looks exactly like this)
+    if not c.expect_fail and not getattr(c, 'allow_idle_loops', False) and not res.undecided:
+        for tg in sorted(LOOPS_SEEN - LOOPS_ENTERED):
+            res.undecided.append('checker error: annotated loop %s is reached but its body is never entered '
+                                 '(vacuous loop contract)' % tg)
     res.notes = list(dict.fromkeys(ex.notes))
     res.solver_time = ex.solver_time
     res.solver_calls = ex.solver_calls
